@@ -118,9 +118,18 @@ void muggle_evloop_run_select(muggle_event_loop_t *evloop)
 
 				if (ctx->flags & MUGGLE_EV_CTX_FLAG_CLOSED)
 				{
+					// a context added during this dispatch is already in allset
+					// (muggle_evloop_add_ctx_select); take it out again, or the
+					// next select watches a descriptor that cb_close has closed.
+					// NOTE: read the fd before cb_close, which may close it
+					muggle_event_fd closed_fd = ctx->fd;
 					if (evloop->cb_close)
 					{
 						evloop->cb_close(evloop, ctx);
+					}
+					if (closed_fd != MUGGLE_INVALID_EVENT_FD)
+					{
+						FD_CLR(closed_fd, &evloop_select->allset);
 					}
 					node = muggle_linked_list_remove(linked_list, node, NULL, NULL);
 				}
